@@ -17,7 +17,7 @@ use subjective_logic::ops::{Indexes, Product2, Product3, Zeros};
 use subjective_logic::{impl_domain, new_type_domain};
 
 mod kinds;
-use kinds::make;
+use kinds::{make, make_static};
 
 // ---------------------------------------------------------------------------------------------
 // op language
@@ -281,10 +281,42 @@ pub trait Kind {
     fn iter(&self, w: &mut String);
     fn index(&self, w: &mut String);
     fn with(&self, w: &mut String);
+    fn len(&self, w: &mut String) -> Res;
+}
+
+/// the state-free operations of one array kind
+pub trait StaticKind {
     fn indexes(&self, w: &mut String);
     fn keys(&self, w: &mut String) -> Res;
     fn dkeys(&self, w: &mut String) -> Res;
-    fn len(&self, w: &mut String) -> Res;
+}
+
+fn is_static(op: &Op) -> bool {
+    matches!(op, Op::Indexes | Op::Keys | Op::Dkeys)
+}
+
+fn exec_static(k: &dyn StaticKind, op: &Op, w: &mut String) -> Res {
+    match op {
+        Op::Indexes => {
+            k.indexes(w);
+            Res::Ok
+        }
+        Op::Keys => k.keys(w),
+        Op::Dkeys => k.dkeys(w),
+        _ => Res::Na,
+    }
+}
+
+fn step_static(k: &dyn StaticKind, op: &Op, out: &mut String) {
+    let mut w = String::new();
+    match catch_unwind(AssertUnwindSafe(|| exec_static(k, op, &mut w))) {
+        Ok(Res::Ok) => out.push_str(w.trim_start()),
+        Ok(Res::Na) => out.push_str("na"),
+        Ok(Res::Err(v)) => {
+            let _ = write!(out, "err {}", v);
+        }
+        Err(_) => out.push_str("panic"),
+    }
 }
 
 fn exec(k: &mut dyn Kind, op: &Op, w: &mut String) -> Res {
@@ -370,12 +402,7 @@ fn exec(k: &mut dyn Kind, op: &Op, w: &mut String) -> Res {
             k.with(w);
             Res::Ok
         }
-        Op::Indexes => {
-            k.indexes(w);
-            Res::Ok
-        }
-        Op::Keys => k.keys(w),
-        Op::Dkeys => k.dkeys(w),
+        Op::Indexes | Op::Keys | Op::Dkeys => Res::Na, // state-free: handled by `step_static`
         Op::Len => k.len(w),
         Op::Bad => Res::Na,
     }
@@ -405,24 +432,27 @@ fn run_line(line: &str) -> String {
         _ => return "unsupported".into(),
     };
     let ops: Vec<Op> = toks[5..].iter().map(|t| parse_op(dims.len(), t)).collect();
-    let made = catch_unwind(AssertUnwindSafe(|| make(variant, &dims)));
-    let mut out = String::new();
-    match made {
-        Ok(Some(mut k)) => {
-            for (i, op) in ops.iter().enumerate() {
-                if i > 0 {
-                    out.push_str(" | ");
-                }
-                step(k.as_mut(), op, &mut out);
-            }
-        }
+    let st = match make_static(variant, &dims) {
+        Some(st) => st,
+        None => return "unsupported".into(),
+    };
+    // both registers start as `zeros()`; if that already fails only the state-free ops are run
+    let mut made = match catch_unwind(AssertUnwindSafe(|| make(variant, &dims))) {
+        Ok(Some(k)) => Some(k),
         Ok(None) => return "unsupported".into(),
-        Err(_) => {
-            for i in 0..ops.len() {
-                if i > 0 {
-                    out.push_str(" | ");
-                }
-                out.push_str("noinit");
+        Err(_) => None,
+    };
+    let mut out = String::new();
+    for (i, op) in ops.iter().enumerate() {
+        if i > 0 {
+            out.push_str(" | ");
+        }
+        if is_static(op) {
+            step_static(st.as_ref(), op, &mut out);
+        } else {
+            match made.as_mut() {
+                Some(k) => step(k.as_mut(), op, &mut out),
+                None => out.push_str("noinit"),
             }
         }
     }
